@@ -32,19 +32,55 @@ func (x *Exec) needsInst(o *Obligation) bool {
 }
 
 func (x *Exec) smtTextMode(o *Obligation, getValues []*Term, instantiate bool) string {
+	return x.smtTextOpt(o, getValues, instantiate, false)
+}
+
+// smtTextOpt: dropQuant leaves out every quantified assumption (a weaker
+// query: `unsat` for it is still a proof).
+func (x *Exec) smtTextOpt(o *Obligation, getValues []*Term, instantiate, dropQuant bool) string {
 	w := x.w
 	ts := w.ts
 	var roots []*Term
 	roots = append(roots, w.axioms...)
-	roots = append(roots, x.assumes[:o.nAssume]...)
+	if o.guard != nil {
+		// an assumption made under a path condition that contradicts the
+		// obligation's own path condition is vacuous for it: leave it out
+		lits := map[int]bool{}
+		neg := map[int]bool{}
+		for _, l := range flattenAnd(o.guard) {
+			lits[l.id] = true
+			if l.kind == kApp && l.op == "not" {
+				neg[l.args[0].id] = true
+			}
+		}
+		for _, a := range x.assumes[:o.nAssume] {
+			if a.kind == kApp && a.op == "=>" && contradicts(a.args[0], lits, neg) {
+				continue
+			}
+			roots = append(roots, a)
+		}
+	} else {
+		roots = append(roots, x.assumes[:o.nAssume]...)
+	}
 	var goal *Term
 	if o.IsCover {
 		goal = o.goal
 	} else {
 		goal = ts.Not(o.goal)
 	}
+	if dropQuant {
+		var keep []*Term
+		for _, r := range roots {
+			if !hasQuant(r, map[int]bool{}) {
+				keep = append(keep, r)
+			}
+		}
+		roots = keep
+	}
 	roots = append(roots, goal)
-	roots = append(roots, x.baseAxioms(roots)...)
+	if !dropQuant {
+		roots = append(roots, x.baseAxioms(roots)...)
+	}
 	if instantiate {
 		ic := &instCtx{ts: ts, cands: collectIndexTerms(roots, goal), ground: map[int][]*Term{}, gseen: map[int]bool{}}
 		for _, r := range roots {
@@ -272,9 +308,10 @@ func dischargeAll(results []*Result, outDir string, timeoutS int, workers int) m
 				lk := locks[j.r.Exec]
 				lk.Lock()
 				text := j.r.Exec.smtText(j.o, nil)
-				itext := ""
+				itext, qtext := "", ""
 				if !j.o.IsCover && j.r.Exec.needsInst(j.o) {
 					itext = j.r.Exec.smtTextMode(j.o, nil, true)
+					qtext = j.r.Exec.smtTextOpt(j.o, nil, false, true)
 				}
 				lk.Unlock()
 				file := filepath.Join(outDir, fmt.Sprintf("%04d_%s.smt2", j.idx, sanitize(j.o.Name)))
@@ -294,7 +331,23 @@ func dischargeAll(results []*Result, outDir string, timeoutS int, workers int) m
 					// vacuity guards: only `unsat` (contradictory assumptions) matters
 					tmo = 4
 				}
-				if itext != "" {
+				if qtext != "" {
+					// first the query without any quantified assumption (cheap when it suffices)
+					qfile := strings.TrimSuffix(file, ".smt2") + ".noq.smt2"
+					os.WriteFile(qfile, []byte(qtext), 0o644)
+					qt := 5
+					if tmo < qt {
+						qt = tmo
+					}
+					res = solveFile(qfile, qt, nil)
+					os.Remove(qfile)
+					if res.Status == "unsat" {
+						res.Solver += "+noq"
+					} else {
+						res = SolveResult{}
+					}
+				}
+				if res.Status != "unsat" && itext != "" {
 					ifile := strings.TrimSuffix(file, ".smt2") + ".inst.smt2"
 					os.WriteFile(ifile, []byte(itext), 0o644)
 					res = solveFile(ifile, tmo, nil)
@@ -308,14 +361,19 @@ func dischargeAll(results []*Result, outDir string, timeoutS int, workers int) m
 				}
 				if res.Status != "unsat" {
 					t := tmo
-					if res.Status == "sat" && t > 10 {
+					if res.Status == "sat" && t > 20 {
 						// the ground-instantiated query has a model: the full query is rarely unsat
-						t = 10
+						t = 20
 					}
 					res = solveFile(file, t, nil)
 				}
 				if os.Getenv("GOVC_VERBOSE") != "" {
 					fmt.Fprintf(os.Stderr, "%-8s %-7s %6.1fs %s\n", res.Status, res.Solver, res.Seconds, j.o.Name)
+				}
+				if res.Status == "unsat" && os.Getenv("GOVC_KEEP_SMT") == "" {
+					// discharged: the query text is not needed any more (disk space)
+					os.Remove(file)
+					os.Remove(strings.TrimSuffix(file, ".smt2") + ".inst.smt2")
 				}
 				d := &Discharged{Obl: j.o, Res: res, File: file, Size: len(text), InstSat: instSat}
 				mu.Lock()
@@ -379,4 +437,29 @@ func (x *Exec) baseAxioms(roots []*Term) []*Term {
 		}
 	}
 	return out
+}
+
+func flattenAnd(t *Term) []*Term {
+	if t.kind == kApp && t.op == "and" {
+		var out []*Term
+		for _, a := range t.args {
+			out = append(out, flattenAnd(a)...)
+		}
+		return out
+	}
+	return []*Term{t}
+}
+
+// contradicts: some conjunct of guard a is the negation of a conjunct of the
+// obligation's guard (lits: its conjuncts; neg: the atoms it negates).
+func contradicts(a *Term, lits, neg map[int]bool) bool {
+	for _, l := range flattenAnd(a) {
+		if neg[l.id] {
+			return true
+		}
+		if l.kind == kApp && l.op == "not" && lits[l.args[0].id] {
+			return true
+		}
+	}
+	return false
 }
